@@ -86,7 +86,7 @@ def run_crc_hd(run):
     run.extra.setdefault('enumerated', []).append(rec)
     names = ['weight-1 (every column non-zero)', 'weight-2 (columns pairwise distinct)',
              'weight-3 (no pair XOR equals a column)', 'weight-4 (no two pairs share a XOR)',
-             'shorter frames (column depends only on distance from the end)']
+             'shorter frames (every length, byte and bit: the column depends only on the distance from the end)']
     if p.returncode == 0 and line.startswith('OK '):
         m = re.search(r'columns=(\d+) pairs=(\d+) shift_checked=(\d+)', line)
         if not m or int(m.group(1)) != frame_len * 8:
